@@ -854,7 +854,30 @@ def parse_model(model: str, *, check_syntax: bool = True) -> List[Symbol]:
             + ', '.join(reserved_names)
         )
 
-    return list(symbols.values()) + verbatim
+    combined = list(symbols.values()) + verbatim
+
+    # Statements that each compile (also as part of the body of `_evaluate()`)
+    # may still not compile together e.g. `global np` after an equation that
+    # uses `np`. Check by compiling them all, in order, in one function body
+    if check_syntax:
+        code = [s.code for s in combined if s.code is not None]
+
+        with warnings.catch_warnings():
+            warnings.simplefilter('ignore')
+
+            try:
+                compile(
+                    'def _evaluate(self, t, *, errors, catch_first_error, iteration, **kwargs):\n'
+                    + textwrap.indent('\n'.join(code) if code else 'pass', '    '),
+                    '<string>',
+                    'exec',
+                )
+            except SyntaxError as e:
+                raise ParserError(
+                    f'Statements do not compile together as the body of `_evaluate()`: {e.msg}'
+                ) from e
+
+    return combined
 
 
 # Model class generator -------------------------------------------------------
